@@ -640,7 +640,7 @@ fn value_cases(ctx: &mut Ctx, n: u64, avoid_u8_small: bool) {
     for i in 0..n {
         let mut rng = std::mem::replace(&mut ctx.rng, Rng::new(0));
         let mut g = VG { rng: &mut rng, avoid_u8_small };
-        let which = i % 34;
+        let which = i % 37;
         match which {
             0 => {
                 let v = v_kvp(&mut g, v_u64, v_string);
@@ -801,6 +801,19 @@ fn value_cases(ctx: &mut Ctx, n: u64, avoid_u8_small: bool) {
             32 => {
                 let v = v_nullable(&mut g, |g| v_kvp(g, v_anyuint, |g| v_nullable(g, v_bytes)));
                 value_case!(ctx, "Nullable<KeyValuePairs<AnyUInt,Nullable<Bytes>>>", Nullable<KeyValuePairs<AnyUInt, Nullable<Bytes>>>, v);
+            }
+            34 => {
+                // an (in)definite map as the last value of an (in)definite map: two breaks in a row
+                let v = v_nekvp(&mut g, v_u64, |g| v_nekvp(g, v_u64, v_u64));
+                value_case!(ctx, "NonEmptyKeyValuePairs<u64,NonEmptyKeyValuePairs<u64,u64>>", NonEmptyKeyValuePairs<u64, NonEmptyKeyValuePairs<u64, u64>>, v);
+            }
+            35 => {
+                let v = v_mia(&mut g, |g| v_nekvp(g, v_u64, v_u64));
+                value_case!(ctx, "MaybeIndefArray<NonEmptyKeyValuePairs<u64,u64>>", MaybeIndefArray<NonEmptyKeyValuePairs<u64, u64>>, v);
+            }
+            36 => {
+                let v = v_kvp(&mut g, v_u64, |g| v_kvp(g, v_u64, |g| v_mia(g, v_u64)));
+                value_case!(ctx, "KeyValuePairs<u64,KeyValuePairs<u64,MaybeIndefArray<u64>>>", KeyValuePairs<u64, KeyValuePairs<u64, MaybeIndefArray<u64>>>, v);
             }
             _ => {
                 // a decoded KeepRaw (raw bytes present) is a value too: full equality incl. the raw bytes
